@@ -187,6 +187,11 @@ impl BuiltInFunction {
                     unreachable!()
                 };
 
+                if v.0.borrow().is_empty() {
+                    // no element to call back for: the bridge would index the empty list
+                    return Ok((Some(Primitive::Vector(GcVector::new(vec![]))), None));
+                }
+
                 #[derive(Debug)]
                 struct MapOp {
                     callback_path: String,
@@ -264,6 +269,11 @@ impl BuiltInFunction {
                 let Some(Primitive::Vector(v)) = arguments.first() else {
                     unreachable!()
                 };
+
+                if v.0.borrow().is_empty() {
+                    // no element to call back for: the bridge would index the empty list
+                    return Ok((Some(Primitive::Vector(GcVector::new(vec![]))), None));
+                }
 
                 #[derive(Debug)]
                 struct FilterOp {
